@@ -47,7 +47,7 @@ def main():
             "breaks": am.get("summary", ""),
             "needs_to_manifest": am.get("needs_to_manifest", ""),
             "demo": {"file": demo_file, "place_at": demo.get("place_at", ""), "run": demo.get("run", "")},
-            "origin": "written by an independent sub-agent that saw only the property text and a scratch worktree (nothing from /verif); third round, base b4d5b9c",
+            "origin": "written by an independent sub-agent that saw only the property text and a scratch worktree (nothing from /verif); fourth round, base b4d5b9c",
             "what_i_ran": {
                 "script": "scratch worktree at the seed's base commit: apply patch.diff; cargo build --lib --bins; full 691-test nextest suite WITH the change (demo absent); demo test WITH the change; revert; demo test WITHOUT the change",
                 "result_lines": [l for l in lines if l.startswith(("seed ", "build_with_patch", "suite_with_patch", "demo_with_patch_exit", "demo_without_patch_exit", "DONE"))],
